@@ -104,7 +104,7 @@ func trackerSpec(c *core.Ctx) {
 				nrec++
 				a := s.Common().Args
 				l := sliceLeaves(c.Env, a[1], 0)
-				c.Check(strings.HasSuffix(core.Key(a[0]), "ref.Context") && leavesContain(l, "ref.UniqueName"), "the visitor recurses on the linked reference", at(c, s.Instr), "", "recursion arguments: "+core.Key(a[0])+" / "+leavesList(l))
+				c.Check(strings.HasSuffix(core.Key(a[0]), ".Context") && leavesContain(l, ".UniqueName"), "the visitor recurses on the linked reference", at(c, s.Instr), "", "recursion arguments: "+core.Key(a[0])+" / "+leavesList(l))
 				// under: not yet collected
 				ok := false
 				for _, g := range guardsOf(s.Instr) {
@@ -124,10 +124,11 @@ func trackerSpec(c *core.Ctx) {
 						continue
 					}
 					k := core.Key(mu.Key)
-					if strings.HasSuffix(k, "ref.UniqueName") {
+					if strings.HasSuffix(k, ".UniqueName") && !strings.Contains(k, "dest.") {
 						nset++
 						ph, isPhi := mu.Map.(*ssa.Phi)
-						c.Check(isPhi && ph.Comment == "outputlist", "a linked reference is collected under its own context", at(c, mu), "", "collected into "+core.Key(mu.Map))
+						_ = ph
+						c.Check(isPhi && strings.Contains(core.Key(mu.Map), "outputrefs"), "a linked reference is collected under its own context", at(c, mu), "", "collected into "+core.Key(mu.Map))
 					}
 				}
 			}
@@ -184,7 +185,7 @@ func trackerSpec(c *core.Ctx) {
 			case strings.HasSuffix(core.CalleeName(s.Common()), "tracker).removeRef"):
 				rec = s.Instr
 				a := s.Common().Args
-				c.Check(strings.HasSuffix(core.Key(a[1]), "#1.Context") || strings.HasSuffix(core.Key(a[1]), "ref.Context"), "removeRef follows the references of the removed entry", at(c, rec), "", "recursion on "+core.Key(a[1])+" / "+core.Key(a[2]))
+				c.Check(strings.HasSuffix(core.Key(a[1]), ".Context"), "removeRef follows the references of the removed entry", at(c, rec), "", "recursion on "+core.Key(a[1])+" / "+core.Key(a[2]))
 			}
 		}
 		c.Check(del != nil && rec != nil, "removeRef deletes and recurses", c.Pos(fn.Pos()), "", "delete or recursion missing")
